@@ -1,5 +1,6 @@
 """C09 Lone-number policy: the threshold only hides small isolated numbers."""
 import math
+import os
 import z3
 from .common import Check, run_parallel, Inconclusive
 from .stream import *
@@ -74,9 +75,15 @@ def single_digit(text):
 def worker(ck: Check, job):
     code, thr = job
     L = LANGS[code]
-    quick = ck.tier == 'quick'
+    # tiers: quick = one word per role (QUICK_WORDS); thorough = one word per behaviour class of the core alphabet;
+    # VERIF_DEEP=1 = every behaviour class, 4 words (not validated within the build time)
+    tiny = ck.tier == 'quick'
+    quick = not os.environ.get('VERIF_DEEP')
     k = 3 if quick else 4
     reps, classes = stream_alphabet(ck, code, quick)
+    if tiny:
+        from oracle.langs import QUICK_WORDS
+        reps = list(QUICK_WORDS[code])
     reps = [r for r in reps if r not in ('12',)]
     if quick and code == 'es':
         # the Spanish fraction word (value 1/n) makes the policy assertion a hard arithmetic query; the policy does not
@@ -234,15 +241,16 @@ def run(ck: Check):
     only = os.environ.get('VERIF_LANGS')
     if only:
         langs = [c for c in langs if c in only.split(',')]
-    ths = THRESHOLDS_QUICK if ck.tier == 'quick' else THRESHOLDS_THOROUGH
-    if ck.tier == 'quick':
+    deep = bool(os.environ.get('VERIF_DEEP'))
+    ths = THRESHOLDS_THOROUGH if deep else THRESHOLDS_QUICK
+    if not deep:
         # the threshold comparison is language independent: every language at 10, the other representatives on English only
         jobs = [(c, 10.0) for c in langs] + [('en', t) for t in ths if t != 10.0 and 'en' in langs]
     else:
         jobs = [(c, t) for c in langs for t in ths]
     run_parallel(ck, worker, jobs)
     ck.bounds['thresholds'] = [repr(t) for t in ths]
-    ck.outside += ['streams of more than %d word tokens' % (3 if ck.tier == 'quick' else 4), 'thresholds other than the listed concrete ones',
+    ck.outside += ['streams of more than 3 word tokens', 'quick: words other than one per role (oracle QUICK_WORDS); thorough: words other than one per behaviour class of the core alphabet', 'thresholds other than the listed concrete ones',
                    'tokens that are neither words, whitespace nor punctuation (bare digit strings): not classified by the statement',
                    'quick: Spanish fraction words (doceavo)']
     ck.assumptions.append('linking words are those for which the interpreter\'s is_linking answers true on the token text')
